@@ -62,6 +62,15 @@ func (c *decoratorController) callHook(
 		}
 	}
 
+	// The rest of the sync dereferences every attachment: drop null entries.
+	attachments := response.Attachments[:0]
+	for _, child := range response.Attachments {
+		if child != nil {
+			attachments = append(attachments, child)
+		}
+	}
+	response.Attachments = attachments
+
 	for _, child := range response.Attachments {
 		if child != nil && child.GetNamespace() == "" {
 			child.SetNamespace(parent.GetNamespace())
